@@ -10,6 +10,8 @@ IMPORTS = 'From Viv Require Import Base.Assoc Base.Tree Model.Emit Corr.Emitc.'
 CHECK_FN = 'check_case'
 BAD_TERM = '(MEmit (EDir []) None [] (Some (Nd [])))'
 KEYS = ['a', 'b', 'c', 'd', 'e']
+UNITS = {'mg': 1, 'g': 1000, 'kg': 10 ** 6}
+UNIT_NAMES = {'mg': 'milligram', 'g': 'gram', 'kg': 'kilogram'}
 
 _SER = None
 
@@ -35,6 +37,13 @@ def gen_store(rng, depth):
     for k in rng.sample(KEYS, rng.randint(1, 4)):
         if depth > 1 and rng.random() < 0.4:
             out[k] = gen_store(rng, depth - 1)
+        elif rng.random() < 0.2:
+            # a variable declared with `_units` whose value is supplied in another unit of the same dimension:
+            # [magnitude, unit of the value, declared unit, emit]; the quantity is a whole number of kg, so
+            # every conversion between mg, g and kg is exact
+            vu, du = rng.choice(list(UNITS)), rng.choice(list(UNITS))
+            q = rng.choice([0, 1, 2, -3, 7, 12]) * 10 ** 6          # in mg
+            out[k] = {'$qty': [q // UNITS[vu], vu, du, rng.random() < 0.6]}
         else:
             out[k] = {'$leaf': [rng.choice([None, 0, 0, 3, -2, 7]), rng.random() < 0.5, rng.random() < 0.25]}
     return out
@@ -43,7 +52,7 @@ def gen_store(rng, depth):
 def branch_paths(d, pre=()):
     out = [list(pre)]
     for k, v in d.items():
-        if '$leaf' in v:
+        if '$leaf' in v or '$qty' in v:
             out.append(list(pre + (k,)))
         else:
             out.extend(branch_paths(v, pre + (k,)))
@@ -55,7 +64,7 @@ def gen_cfg(rng, d):
     cfg = {'$emit': rng.choice([None, None, True, False]), 'c': {}}
     for k, v in d.items():
         if rng.random() < 0.5:
-            if '$leaf' in v:
+            if '$leaf' in v or '$qty' in v:
                 cfg['c'][k] = {'$emit': rng.choice([True, False]), 'c': {}}
             else:
                 cfg['c'][k] = gen_cfg(rng, v)
@@ -81,8 +90,37 @@ def py_store_config(d):
                 plus1000()
                 cfg['_serializer'] = 'verif_plus1000'
             out[k] = cfg
+        elif '$qty' in v:
+            from vivarium.library.units import units
+            mag, vu, du, emit = v['$qty']
+            out[k] = {'_default': mag * getattr(units, vu), '_units': getattr(units, du), '_emit': emit,
+                      '_updater': 'set'}
         else:
             out[k] = py_store_config(v)
+    return out
+
+
+def parse_row_value(x):
+    """a row entry: an int, or the serialized quantity '!units[<magnitude> <unit>]' -> (magnitude, unit)"""
+    if isinstance(x, str):
+        if not (x.startswith('!units[') and x.endswith(']')):
+            raise ValueError('unexpected row entry %r' % (x,))
+        m, u = x[len('!units['):-1].split(' ', 1)
+        f = float(m)
+        if abs(f - round(f)) > 1e-6 * max(1.0, abs(f)):
+            raise ValueError('non-integral magnitude in %r' % (x,))
+        return int(round(f)), u
+    return x, None
+
+
+def row_units(row, store, pre=()):
+    """[(path, unit written in the row, declared unit)] for the quantity entries of a row"""
+    out = []
+    for k, v in (row or {}).items():
+        if isinstance(v, dict):
+            out.extend(row_units(v, store.get(k, {}), pre + (k,)))
+        elif isinstance(v, str) and '$qty' in store.get(k, {}):
+            out.append((pre + (k,), parse_row_value(v)[1], UNIT_NAMES[store[k]['$qty'][2]]))
     return out
 
 
@@ -98,6 +136,7 @@ def py_cfg(cfg, top=True):
 def run_impl(c):
     from vivarium.core.store import Store
     store = Store(py_store_config(c['store']))
+    store.apply_defaults()         # as generate_state does: a quantity variable takes its declared default
     if c['cfg'] is not None:
         store._apply_config(py_cfg(c['cfg']))
     for path, b in c['sets']:
@@ -109,6 +148,7 @@ def oracle(c, ob, rng):
     """the row holds exactly the flagged, valued variables (serializer applied), read from the real store"""
     from vivarium.core.store import Store
     store = Store(py_store_config(c['store']))
+    store.apply_defaults()         # as generate_state does: a quantity variable takes its declared default
     if c['cfg'] is not None:
         store._apply_config(py_cfg(c['cfg']))
     for path, b in c['sets']:
@@ -118,17 +158,28 @@ def oracle(c, ob, rng):
         if node.inner or not node.leaf:
             continue
         if node.emit and node.value is not None:
-            want[tuple(path)] = node.value + 1000 if node.serializer else node.value
+            if node.units is not None:
+                q = node.value.to('milligram').magnitude
+                want[tuple(path)] = ('mg', int(round(q)))
+            else:
+                want[tuple(path)] = node.value + 1000 if node.serializer else node.value
 
     def flat(d, pre=()):
         out = {}
         if isinstance(d, dict):
             for k, v in d.items():
                 out.update(flat(v, pre + (k,)))
+        elif isinstance(d, str):
+            m, u = parse_row_value(d)
+            scale = {v: UNITS[k] for k, v in UNIT_NAMES.items()}.get(u)
+            out[pre] = ('mg', m * scale) if scale else ('?', d)
         else:
             out[pre] = d
         return out
     got = flat(ob['row']) if ob['row'] is not None else {}
+    for path, written, declared in row_units(ob['row'], c['store']):
+        if written != declared:
+            return [('the row gives %r in %s, the variable is declared in %s' % (path, written, declared), 'row-units')]
     if got != want:
         return [('the row holds %r, the flagged valued variables are %r' % (got, want), 'row-content')]
     return []
@@ -140,6 +191,9 @@ def r_store(d):
         if '$leaf' in v:
             val, emit, ser = v['$leaf']
             items.append(cpair(cN(KEYS.index(k)), '(ELeaf %s %s %s)' % (copt(cZ(val) if val is not None else None), cbool(emit), cbool(ser))))
+        elif '$qty' in v:
+            mag, vu, du, emit = v['$qty']
+            items.append(cpair(cN(KEYS.index(k)), '(EQty %s %s %s %s)' % (cZ(mag), cZ(UNITS[vu]), cZ(UNITS[du]), cbool(emit))))
         else:
             items.append(cpair(cN(KEYS.index(k)), r_store(v)))
     return '(EDir %s)' % clist(items)
@@ -153,7 +207,7 @@ def r_cfg(cfg):
 def r_row(d):
     if isinstance(d, dict):
         return '(Nd %s)' % clist([cpair(cN(KEYS.index(k)), r_row(v)) for k, v in d.items()])
-    return '(Lf %s)' % cZ(d)
+    return '(Lf %s)' % cZ(parse_row_value(d)[0])
 
 
 def render(c, ob):
